@@ -22,6 +22,7 @@ RULE = ("Hypothesis: well-formed notes on 2 channels over 3-4 pitches (same pitc
         "the smallest step, or the same pitch on two channels, or two notes of a key closer than max(step)). Distinct by "
         "case digest.")
 RULE = RULE + RULE_EXTRA
+RULE = RULE + " Round h: quantise() with the default step sizes, shifts beyond 2**53."
 ASSUMPTIONS = ["inputs respect the library's tie convention (note-off before note-on of the same key on one tick)",
                "the trailing INTERNAL marker (total duration) is not an 'event' of the statement and is not checked"]
 TIERS = {"quick": dict(shards=8, examples=1500, alt_ppqn=[480], alt_shards=2),
@@ -49,13 +50,15 @@ def _case(draw, size=1):
     spec.update(draw(gens.route()))
     end = max([n[3] for n in notes] + [m[1] for m in meta] + [0])
     spec["pad"] = draw(st.one_of(st.none(), st.just(end + draw(st.integers(0, 30)))))
-    gens.far_shift(draw, spec)
+    gens.far_shift(draw, spec, extra=(2 ** 60 + 5, 2 ** 56 + 1))       # (integer arithmetic must stay exact beyond 2**53)
     if draw(st.integers(0, 7)) == 0:
         spec["double"] = draw(st.sampled_from(["self", "fresh"]))     # the material twice: one message object, two positions
     steps = draw(st.one_of(
         st.sampled_from([[48], [24], [12], [16], [48, 24], [12, 16], [24, 16], [7], [5, 3], [8, 12], [48, 16], [6, 4]]),
         st.lists(st.sampled_from(STEP_POOL), min_size=1, max_size=4)))
     case = {"seq": spec, "steps": list(steps)}
+    if draw(st.integers(0, 9)) == 0:
+        case["default_steps"] = True      # quantise() without an argument: the library's default step sizes
     if draw(st.integers(0, 4)) == 0:
         # a history on one object: it was quantised before with another step list (and possibly read); the statement is then
         # checked for the second call against the state the first one left behind
@@ -82,6 +85,13 @@ def _grid_near(t, steps):
 def check(case):
     out = Outcome()
     steps = case["steps"]
+    if case.get("default_steps"):
+        from pbt.sut import PPQN
+        if PPQN != 24:
+            out.inconclusive = "default-step-sizes-at-another-ppqn"
+            return out
+        steps = [24, 12, 6, 16, 8, 4]       # quarter, eighth, sixteenth and their triplets at 24 ticks per quarter note
+        out.label("default-step-sizes")
     smax = max(steps)
     built = build_input(out, case["seq"])
     if built is None:
@@ -113,7 +123,10 @@ def check(case):
     out.label(*[l for l, c in (("same-pitch-two-channels", two_ch), ("close-notes", close), ("short-note", short)) if c])
 
     try:
-        seq.quantise(list(steps))
+        if case.get("default_steps"):
+            seq.quantise()
+        else:
+            seq.quantise(list(steps))
     except Exception as e:
         out.fail("quantise-raises", f"{type(e).__name__}: {e}")
         return out
